@@ -58,7 +58,7 @@ pub fn cfg_for(prop: &'static str) -> FsxCfg {
         },
         "C16" => FsxCfg {
             profile: Profile { read: 2, seek: 4, delete: 8, mkdir: 4, open: 18, close: 10, flush: 8, close_volume: 4, open_volume: 4, open_root: 4, write: 22, check_all: 0, ..Profile::mixed() },
-            bias: VolBias { pick: FatPick::Fat32, ..VolBias::default() },
+            bias: VolBias { pick: FatPick::Fat32, tight: true, ..VolBias::default() },
             steps: (1, 45),
             ..base
         },
@@ -273,6 +273,11 @@ fn compare_node_with_walk(it: &Interp, vt: &VolTrack, img: &Image, w: &fsck::Wal
             if !ok {
                 return Some(fail("C02", "mkdir-dot-entries", format!("{}: new directory lacks '.'/'..'", path)));
             }
+        }
+        // after a write that failed part-way the archive bit is not specified (mtime None marks that)
+        let amask = if n.mtime.is_none() { !0x20u8 } else { 0xFF };
+        if !n.is_dir && (slot.raw[11] & amask) != (n.attr & amask) {
+            return Some(fail("C02", "attributes-on-medium", format!("{}: attribute byte on medium {:#04x}, expected {:#04x} (attributes as found, plus archive once written)", path, slot.raw[11], n.attr)));
         }
         if let Some(cf) = n.cfields {
             // bytes 13..18: creation tenths, time, date ("a creation time that never changes")
